@@ -104,6 +104,12 @@ def first_member_named_like_class_modifier(fail):
     return fail.get("kind") in _C05_KINDS and re.search(r"(?i)\bclass\s+(sealed|abstract)\s*:", _text(fail)) is not None
 
 
+def comparison_inside_array_bounds(fail):
+    """F47: a `<` comparison inside the square brackets of an array type (`array[A < B .. C < D]`) is taken for the opening of a
+    generic argument list that never closes: the declarations after it stay on its line"""
+    return fail.get("kind") in _C05_KINDS and re.search(r"(?i)\barray\s*\[[^\]]*\w\s*<\s*\w[^\]>]*\]", _text(fail)) is not None
+
+
 def anonymous_routine_inside_raise(fail):
     """F37: an anonymous routine in the expression of a `raise` statement is skipped as a parenthesised pair"""
     return fail.get("kind") in _C05_KINDS and re.search(r"(?i)\braise\b[^;]*\b(procedure|function)\b", _text(fail)) is not None
@@ -225,7 +231,7 @@ def witness_inputs(prop):
     return out
 
 
-DETECTORS = {f.__name__: f for f in [overflow_only_by_a_line_start_token, wider_more_lines_only_by_a_kept_blank_line, equal_penalty_solutions, line_without_solution, children_of_voided_parent, first_member_named_like_class_modifier, anonymous_routine_inside_raise, comment_between_control_keyword_and_begin, config_value_coerced, nested_anonymous_routines_unclosed_paren, lone_cr_after_line_comment, overflow_by_closers_after_line_comment, wider_more_lines_in_overflow_regime, wider_more_lines_cheaper_break_kind, mlstring_width_dependence,
+DETECTORS = {f.__name__: f for f in [comparison_inside_array_bounds, overflow_only_by_a_line_start_token, wider_more_lines_only_by_a_kept_blank_line, equal_penalty_solutions, line_without_solution, children_of_voided_parent, first_member_named_like_class_modifier, anonymous_routine_inside_raise, comment_between_control_keyword_and_begin, config_value_coerced, nested_anonymous_routines_unclosed_paren, lone_cr_after_line_comment, overflow_by_closers_after_line_comment, wider_more_lines_in_overflow_regime, wider_more_lines_cheaper_break_kind, mlstring_width_dependence,
     cr_after_line_comment_in_region, literal_then_gap, mlstring_in_child_line_reflow,
     trailing_exotic_blank_in_line_comment, unterminated_literal_trailing_blank, continuation_saturates,
     nesting_depth, cursor_mid_char_changed_token, cursor_u16_truncation, mlstring_last_terminator_lone_cr,
